@@ -215,8 +215,9 @@ def _history(ctx, idx):
         oa, ob = findings.diff(f.findings, c.findings)
         if bad or oa or ob:
             extra = ' (%s, cache files reused: %d; history: %s)' % (' '.join(jopt), hits, ' | '.join(log))
-            if not bad:
-                # does the difference depend on the history at all?  Same run on an empty build dir:
+            if not bad and any(cases.is_whole_program(x[0]) for x in oa + ob):
+                # whole-program findings differ: does the difference depend on the history at all?
+                # Same run on an empty build dir:
                 bd2 = os.path.join(d, 'bd_empty')
                 shutil.rmtree(bd2, ignore_errors=True)
                 os.makedirs(bd2)
@@ -227,7 +228,8 @@ def _history(ctx, idx):
                               'build-dir and in-memory analysis, not caused by the edit history')
             if bad:
                 extra += '\ncached run crashed or wrote malformed XML: rc=%s %s' % (c.rc, c.res.etext()[-800:])
-            elif step > 0 and not key.startswith('storage-mode:'):
+            elif step > 0 and not key.startswith('storage-mode:') and key not in ctx.known:
+                # (listed findings are confirmed on two-state histories by the sweep already)
                 # confirm the attribution on the two-state history (cache of the tree before the edit -> run
                 # after the edit); if that does not reproduce, the stale state stems from the longer history
                 if not _two_state(ctx, d, opts, jopt, before, before_sources, tree):
